@@ -487,7 +487,7 @@ fn main() {
     report.floor("mint.EAlreadyExists", (args.cases as u64) / 4);
     report.floor("update.EUnknownField", (args.cases as u64) / 2);
     report.floor("update.Ok", (args.cases as u64) / 2);
-    report.floor("burn.Ok", args.cases as u64);
+    report.floor("burn.Ok", (args.cases as u64) / 2);
     cw.write(&args.out, args.shards).unwrap();
     report.write(&args.out).unwrap();
 }
